@@ -1,3 +1,247 @@
-import OtelVerif.Lemmas.Ring.Main
-import OtelVerif.Model.RingFine
-import OtelVerif.Model.SpinLock
+import OtelVerif.Lemmas.Ring.Fine
+import OtelVerif.Lemmas.SpinLock
+import OtelVerif.Lemmas.Pigeon
+import OtelVerif.Gen.Ring
+/-! # C11 — The lock-free queue and spin lock are correct under every interleaving
+
+Theorems about `Model/Ring.lean` (`CircularBuffer` + `AtomicUniquePtr`, one action per atomic access, sequentially
+consistent, **any number of producers, any capacity ≥ 1, every schedule, spurious weak-CAS failures included**),
+`Model/RingFine.lean` (the same system driven as the harness drives the real code, the consumer's loads included) and
+`Model/SpinLock.lean`.  `cap = capacity_ = max_size + 1`.  A schedule is a `List Act`; `run` returns `none` when an
+action is not enabled, so `run (init cap) as = some s` says "`s` is reachable by the schedule `as`". -/
+namespace Otel.C11
+open Otel Otel.Ring
+
+/-- the generated constants are the ones the model hard-wires -/
+theorem gen_ring : Gen.ringCapacitySlack = 1 ∧ Gen.ringFullSlack = 1 := by decide
+
+variable {cap : Nat} (hc : 2 ≤ cap) {as : List Act} {s : St} (h : run (init cap) as = some s)
+include hc h
+
+/-! ## Every element whose Add reported success is consumed at most once, in commit order -/
+
+/-- what the consumer has taken out is exactly the first `clr` committed elements, in commit order -/
+theorem consumed_is_log_prefix : s.out = s.log.take s.clr := (reachable_inv cap hc as s h).1.outEq
+
+/-- the commit log (elements whose `Add` returned true, in the order of their head CAS) has no duplicates … -/
+theorem log_nodup : s.log.Nodup := (reachable_inv cap hc as s h).2.logNodup
+
+/-- … hence **nothing is consumed twice** -/
+theorem consumed_at_most_once : s.out.Nodup := by
+  rw [consumed_is_log_prefix hc h]
+  exact List.Sublist.nodup (List.take_sublist _ _) (log_nodup hc h)
+
+/-- **at least once**: when the consumer has cleared everything that was committed (`clr = head`, e.g. at quiescence
+    after a final `Consume(size())`), every accepted element has been consumed -/
+theorem drained_all (hq : s.clr = s.head) : s.out = s.log := by
+  rw [consumed_is_log_prefix hc h, hq, ← (reachable_inv cap hc as s h).1.logLen, List.take_length]
+
+/-- the consumer never exchanges out an empty slot -/
+theorem no_empty_slot_consumed {s' : St} (h' : step s .cClear = some s') : s.slots (s.clr % s.cap) ≠ none :=
+  never_consumes_empty cap hc as s s' h h'
+
+/-! ## In each producer's own order -/
+
+/-- element ids are handed out in call order (`pStart` takes `nextId`), so "producer `p`'s call order" is increasing id;
+    the committed elements of one producer appear in the log — hence in the consumer's output — in that order -/
+theorem per_producer_fifo (p : Nat) : (s.out.filter (fun e => s.own e == p)).Pairwise (· < ·) := by
+  rw [consumed_is_log_prefix hc h]
+  exact List.Pairwise.sublist (List.Sublist.filter _ (List.take_sublist _ _)) ((reachable_inv cap hc as s h).2.ownSorted p)
+
+/-! ## An Add that reports failure leaves its element with the caller -/
+
+/-- a failed element is never committed, never consumed … -/
+theorem failed_not_accepted (e : Nat) (he : e ∈ s.fails) : e ∉ s.log ∧ e ∉ s.out := by
+  have hl := ((reachable_inv cap hc as s h).2.failsOk e he).2
+  refine ⟨hl, fun ho => hl ?_⟩
+  rw [consumed_is_log_prefix hc h] at ho
+  exact List.mem_of_mem_take ho
+
+/-- … and is not left behind in any slot of the buffer (so it is still the caller's: no leak, no double free) -/
+theorem failed_not_in_buffer (e : Nat) (he : e ∈ s.fails) (k : Nat) : s.slots k ≠ some e := by
+  obtain ⟨hI, h2⟩ := reachable_inv cap hc as s h
+  intro hk
+  rcases hI.slotOwn k e hk with ⟨i, hi1, hi2, hik⟩ | ⟨p, hp, hpe⟩
+  · have := hI.commit i hi1 hi2
+    rw [hik, hk] at this
+    have hmem : e ∈ s.log := List.mem_of_getElem? this.symm
+    exact (h2.failsOk e he).2 hmem
+  · obtain ⟨hh, hpc, _⟩ := hp
+    have hne : pcOf s p ≠ .idle := by rcases hpc with hpc | hpc <;> (rw [hpc]; simp)
+    exact (h2.flight p hne).2.2.1 (hpe ▸ he)
+
+/-- **ownership accounting**: every element ever handed to `Add` is in exactly one of three places — returned to the
+    caller (`fails`), still in flight in its producer's hands or tentatively in a slot (`pc ≠ idle`), or committed
+    (`log`: in its slot until cleared, then in the consumer's output) -/
+theorem element_accounting (e : Nat) (he : e < s.nextId) :
+    (e ∈ s.log ∨ e ∈ s.fails ∨ ∃ p, pcOf s p ≠ .idle ∧ elOf s p = e) ∧
+    ¬ (e ∈ s.log ∧ e ∈ s.fails) ∧
+    (∀ p, pcOf s p ≠ .idle → elOf s p = e → e ∉ s.log ∧ e ∉ s.fails) ∧
+    (∀ p q, pcOf s p ≠ .idle → pcOf s q ≠ .idle → elOf s p = e → elOf s q = e → p = q) := by
+  obtain ⟨_, h2⟩ := reachable_inv cap hc as s h
+  refine ⟨h2.cover e he, fun ⟨a, b⟩ => (h2.failsOk e b).2 a, ?_, ?_⟩
+  · intro p hp hpe
+    exact ⟨hpe ▸ (h2.flight p hp).2.1, hpe ▸ (h2.flight p hp).2.2.1⟩
+  · intro p q hp hq hpe hqe
+    by_cases hpq : p = q
+    · exact hpq
+    · exact absurd (hpe.trans hqe.symm) (h2.distinct p q hpq hp hq)
+
+/-! ## The number of queued elements never exceeds the capacity -/
+
+theorem size_le_capacity : s.head - s.tail ≤ cap - 1 := size_le_max cap hc as s h
+
+/-! ## Add fails only when full -/
+
+/-- **Failure justification.**  If producer `p`'s `Add` is about to return false (it is at its `head_` load and the full
+    test `head - tail ≥ capacity_ - 1` succeeds on the values it read), then the number of `Add` calls begun before this
+    return, itself excluded (`nextId - 1`), minus the number of elements consumed before it began (`c0`), is at least
+    `max_size = cap - 1`. -/
+theorem add_fails_only_when_full (p t : Nat) (hpc : pcOf s p = .ldHead t) (hfull : s.head - t ≥ s.cap - 1) :
+    (s.nextId - 1) - c0Of s p ≥ cap - 1 := by
+  obtain ⟨hI, h2⟩ := reachable_inv cap hc as s h
+  have hcap : s.cap = cap := cap_run _ _ as h
+  have hne : pcOf s p ≠ .idle := by rw [hpc]; simp
+  obtain ⟨f1, f2, _, _, _⟩ := h2.flight p hne
+  have hc0 := h2.ldHeadC0 p t hpc
+  -- the committed elements are distinct ids below nextId, none of them this Add's element
+  have hlen : s.log.length < s.nextId := nodup_length_lt s.log s.nextId (elOf s p) h2.logNodup h2.logLt f1 f2
+  have := hI.logLen
+  omega
+
+/-- the step itself: after it, the element is in `fails` and the producer is idle again -/
+theorem fail_step_records (p t : Nat) (hpc : pcOf s p = .ldHead t) (hfull : s.head - t ≥ s.cap - 1) :
+    ∃ s', step s (.pLdHead p) = some s' ∧ s'.fails = elOf s p :: s.fails ∧ pcOf s' p = .idle ∧ s'.slots = s.slots := by
+  refine ⟨{ s with prods := setPc s p .idle, fails := (s.prods p).elem :: s.fails }, ?_, rfl, ?_, rfl⟩
+  · have : (s.prods p).pc = .ldHead t := hpc
+    simp only [step, this, hfull, if_true, elOf]
+  · simp [pcOf, setPc]
+
+omit hc h
+
+/-! ## The fine-grained system the harness steps (consumer loads included) -/
+
+/-- every state reachable by any schedule of thread steps satisfies the ring invariants, and `Consume`'s contract
+    `n ≤ head_ - tail_` holds whenever the consumer advances `tail_` -/
+theorem fine_reachable {maxSize nprod adds creq rounds : Nat} (hm : 1 ≤ maxSize) {s : RingFine.St}
+    (hr : RingFine.Reach maxSize nprod adds creq rounds s) :
+    Ring.Inv s.r ∧ Ring.Inv2 s.r ∧ s.r.out = s.r.log.take s.r.clr ∧ s.r.head - s.r.tail ≤ s.r.cap - 1 := by
+  obtain ⟨h1, h2, _⟩ := RingFine.reach_finv hm hr
+  exact ⟨h1, h2, h1.outEq, h1.sizeLe⟩
+
+theorem fine_consume_contract {maxSize nprod adds creq rounds : Nat} (hm : 1 ≤ maxSize) {s : RingFine.St}
+    (hr : RingFine.Reach maxSize nprod adds creq rounds s) (n : Nat) (hcpc : s.cpc = .adv n) :
+    s.r.clr = s.r.tail ∧ n ≤ s.r.head - s.r.tail ∧ (Ring.step s.r (.cTake n)).isSome = true :=
+  RingFine.consume_contract hm hr n hcpc
+
+/-! ## Spin lock -/
+
+open Otel.SpinLock in
+/-- **at most one holder at a time**, in every reachable state of every schedule with any number of threads -/
+theorem mutual_exclusion (acts : List SpinLock.Act) (s : SpinLock.St) (h : SpinLock.run SpinLock.init acts = some s)
+    (p q : Nat) (hp : Holds s p) (hq : Holds s q) : p = q :=
+  (SpinLock.inv_run _ _ acts SpinLock.inv_init h).unique p q hp hq
+
+open Otel.SpinLock in
+/-- a thread in the critical section ⇒ the flag is set -/
+theorem holder_sets_flag (acts : List SpinLock.Act) (s : SpinLock.St) (h : SpinLock.run SpinLock.init acts = some s)
+    (p : Nat) (hp : Holds s p) : s.flag = true :=
+  (SpinLock.inv_run _ _ acts SpinLock.inv_init h).heldFlag p hp
+
+open Otel.SpinLock in
+/-- `try_lock` succeeds only on a free lock: its result is the negation of what it read -/
+theorem tryLock_sound (acts : List SpinLock.Act) (s : SpinLock.St) (h : SpinLock.run SpinLock.init acts = some s)
+    (p : Nat) (read res : Bool) (hx : (p, read, res) ∈ s.tryResults) : res = !read :=
+  (SpinLock.inv_run _ _ acts SpinLock.inv_init h).trySound _ hx
+
+open Otel.SpinLock in
+/-- with the flag set, no step takes a thread into the critical section -/
+theorem no_entry_when_locked (s s' : SpinLock.St) (a : SpinLock.Act) (p : Nat) (h : SpinLock.step s a = some s')
+    (hf : s.flag = true) (hafter : Holds s' p) : Holds s p := by
+  cases a with
+  | beginLock q =>
+    simp only [SpinLock.step] at h
+    split at h
+    · cases h
+      by_cases hq : p = q
+      · subst hq; simp [Holds, SpinLock.setPc] at hafter
+      · simpa [Holds, SpinLock.setPc, Ring.upd_other _ _ _ _ hq] using hafter
+    · cases h
+  | beginTry q =>
+    simp only [SpinLock.step] at h
+    split at h
+    · cases h
+      by_cases hq : p = q
+      · subst hq; simp [Holds, SpinLock.setPc] at hafter
+      · simpa [Holds, SpinLock.setPc, Ring.upd_other _ _ _ _ hq] using hafter
+    · cases h
+  | leave q =>
+    simp only [SpinLock.step] at h
+    split at h
+    · rename_i hpc
+      cases h
+      by_cases hq : p = q
+      · subst hq; exact Or.inl hpc
+      · simpa [Holds, SpinLock.setPc, Ring.upd_other _ _ _ _ hq] using hafter
+    · cases h
+  | step q =>
+    simp only [SpinLock.step] at h
+    split at h
+    all_goals (try simp only [hf, if_true] at h)
+    all_goals (first | cases h | skip)
+    all_goals (
+      by_cases hq : p = q
+      · subst hq
+        first
+        | (rename_i hpc; exact Or.inr hpc)
+        | (exfalso
+           simp only [Holds, SpinLock.setPc, Ring.upd_same, SpinLock.afterSpinFail] at hafter
+           first
+           | (rcases hafter with hafter | hafter <;> (split at hafter <;> cases hafter))
+           | (rcases hafter with hafter | hafter <;> cases hafter))
+      · simpa [Holds, SpinLock.setPc, Ring.upd_other _ _ _ _ hq] using hafter)
+
+open Otel.SpinLock in
+/-- any step that takes a thread into the critical section read the flag as free -/
+theorem acquire_only_when_free (s s' : SpinLock.St) (a : SpinLock.Act) (p : Nat) (h : SpinLock.step s a = some s')
+    (hbefore : ¬ Holds s p) (hafter : Holds s' p) : s.flag = false := by
+  cases hf : s.flag with
+  | false => rfl
+  | true => exact absurd (no_entry_when_locked s s' a p h hf hafter) hbefore
+
+open Otel.SpinLock in
+/-- the pcs of a thread inside `lock()` -/
+def InLock : SpinLock.Pc → Prop
+  | .lockXchg | .spinLoad _ | .spinXchg _ | .yielding | .yLoad | .yXchg | .sleeping => True
+  | _ => False
+
+open Otel.SpinLock in
+/-- **solo progress**: from any state in which the lock is free, a thread inside `lock()` that runs alone acquires the
+    lock within 3 of its own steps (`lock()` returns once the holder has unlocked, unless others keep overtaking it —
+    starvation freedom under an adversarial scheduler is not a property of a test-and-set lock and is not claimed) -/
+theorem lock_solo_progress (s : SpinLock.St) (p : Nat) (hfree : s.flag = false) (hin : InLock (s.pcs p)) :
+    ∃ n, n ≤ 3 ∧ ∃ s', SpinLock.run s (List.replicate n (.step p)) = some s' ∧ s'.pcs p = .holding := by
+  cases hpc : s.pcs p <;> rw [hpc] at hin <;> simp only [InLock] at hin
+  · refine ⟨1, by omega, ?_⟩; simp [List.replicate, SpinLock.run, SpinLock.step, hpc, hfree, SpinLock.setPc]
+  · refine ⟨2, by omega, ?_⟩; simp [List.replicate, SpinLock.run, SpinLock.step, hpc, hfree, SpinLock.setPc]
+  · refine ⟨1, by omega, ?_⟩; simp [List.replicate, SpinLock.run, SpinLock.step, hpc, hfree, SpinLock.setPc]
+  · refine ⟨3, by omega, ?_⟩; simp [List.replicate, SpinLock.run, SpinLock.step, hpc, hfree, SpinLock.setPc]
+  · refine ⟨2, by omega, ?_⟩; simp [List.replicate, SpinLock.run, SpinLock.step, hpc, hfree, SpinLock.setPc]
+  · refine ⟨1, by omega, ?_⟩; simp [List.replicate, SpinLock.run, SpinLock.step, hpc, hfree, SpinLock.setPc]
+  · refine ⟨2, by omega, ?_⟩; simp [List.replicate, SpinLock.run, SpinLock.step, hpc, hfree, SpinLock.setPc]
+
+/-! ## Non-vacuity: concrete schedules reaching interesting states -/
+
+/-- two producers race for slot 0; producer 1 loses the slot CAS, producer 0 commits; the consumer takes one element -/
+def demo : List Act :=
+  [.pStart 0, .pStart 1, .pLdTail 0, .pLdTail 1, .pLdHead 0, .pLdHead 1, .pSwap 0 false, .pSwap 1 false,
+   .pCas 0 false, .cTake 1, .cClear]
+
+example : (run (init 2) demo).map (fun s => (s.out, s.log, s.head, s.tail, s.clr)) = some ([0], [0], 1, 1, 1) := by decide
+/-- a failing Add is reachable: capacity 1 (cap 2), second Add finds the buffer full -/
+example : (run (init 2) [.pStart 0, .pLdTail 0, .pLdHead 0, .pSwap 0 false, .pCas 0 false,
+    .pStart 0, .pLdTail 0, .pLdHead 0]).map (fun s => (s.fails, s.log)) = some ([1], [0]) := by decide
+example : (SpinLock.run SpinLock.init [.beginLock 0, .step 0, .beginTry 1, .step 1]).map
+    (fun s => (s.flag, s.tryResults)) = some (true, [(1, true, false)]) := by decide
+
+end Otel.C11
